@@ -1,3 +1,24 @@
+//! lrv-phy: monitors for lora-modulation and the lora-phy drivers' arithmetic (C15, C16, C17).
+mod bus;
+mod c15;
+mod c16;
+mod c17;
+mod exec;
+
+use lrv_core::{Collector, Value};
+
+/// `col.violation` with a lazily built detail: when the signature is already recorded by an
+/// earlier-or-equal case only the count is bumped (mutants can produce millions of alarms).
+pub fn viol(col: &mut Collector, sig: &str, what: &str, detail: impl FnOnce() -> Value) {
+    if let Some(old) = col.violations.get_mut(sig) {
+        if (old.gen.as_str(), old.idx) <= (col.cur_gen.as_str(), col.cur_idx) {
+            old.count += 1;
+            return;
+        }
+    }
+    col.violation(sig, what, detail());
+}
+
 fn main() {
-    lrv_core::runner::main(&[]);
+    lrv_core::runner::main(&[&c15::C15, &c16::C16, &c17::C17]);
 }
